@@ -21,7 +21,8 @@ class C16(Prop):
     reach = ["pnlen_1", "pnlen_2", "pnlen_3", "pnlen_4", "skip_to_window_boundary", "largest_above_2_53",
              "largest_above_2_32", "reordered_packet", "duplicate_packet", "lost_packet", "space_initial", "space_handshake",
              "space_application", "both_directions", "candidate_minus_window", "candidate_plus_window", "two_connections",
-             "jump_in_packet_with_extension_frame", "zero_rtt_then_one_rtt"]
+             "jump_in_packet_with_extension_frame", "zero_rtt_then_one_rtt",
+             "first_packet_of_space_damaged"]
 
     def plan(self, tier):
         p = super().plan(tier)
@@ -59,6 +60,8 @@ class C16(Prop):
             conns.append(c2)
         spec = {"prop": "C16", "conns": conns, "tap": gen.gen_tap(R.fork("tap")),
                 "policy": R.choice(["concurrent", "staggered", "sequential"])}
+        if idx % 2 == 0 and R.fork("dmg").chance(25):
+            self.damage_first_packet(R.fork("dmg2"), spec, conn)
         if idx % 2:
             P = R.fork("preset")
             pre = {}
@@ -70,6 +73,31 @@ class C16(Prop):
                 pre[side] = {"RTT_1": L}
             spec["pn_preset"] = {str(conn["c"]["port"]): pre}     # per connection (keyed by client port)
         return spec
+
+    def damage_first_packet(self, R, spec, conn):
+        """One bit of the packet number field of the first 1-RTT packet captured in one direction is flipped on the wire
+        (header protection sample intact, so the packet number length is read correctly but the number is wrong and
+        authentication fails): a packet that was not authenticated must not become the reference."""
+        # the damaged packet must not be the one that announces new connection ids (nobody could follow a switch then)
+        conn["q"]["ncid"] = {"s": 0, "c": 0}
+        ex = world.expand(spec)
+        t = ex["truth"]["conns"][0]
+        d = R.choice("cs")
+        first = None
+        for f in t["frames"]:
+            if f["d"] != d or not f["kept"]:
+                continue
+            pks = t["dmeta"][f["dg"]]["pk"]
+            if any(pk.get("space") == "RTT_1" for pk in pks):
+                if pks[0]["kind"] == "1rtt" and not f["dup"]:
+                    first = (f, pks[0])
+                break
+        if first is None:
+            return
+        f, pk = first
+        off = 1 + len(pk["dcid"]) // 2 + R.below(pk["pnlen"])
+        spec["faults"] = [{"k": "flip", "i": f["i"], "off": off, "bit": R.below(8), "fix": True}]
+        spec["damaged_first"] = d
 
     def check(self, lane, spec):
         out = Outcome()
@@ -96,11 +124,12 @@ class C16(Prop):
                 model_largest[(side, sp)] = int(pre.get(side, {}).get(sp, 0))
         expected_calls = []
         ambiguous = {}
+        damaged = set(x["i"] for x in spec.get("faults", []) if x.get("k") == "flip") if conn["id"] == 0 else set()
         for f in t["frames"]:
             if not f["kept"]:
                 continue
             for pk in t["dmeta"][f["dg"]]["pk"]:
-                if pk["kind"] == "retry":
+                if pk["kind"] in ("retry", "vneg"):
                     continue
                 expected_calls.append((f["d"], pk["space"], pk["pn"], pk["pnlen"], f))
         self.reach_probe(out, t)
@@ -139,7 +168,12 @@ class C16(Prop):
                 d, sp, pn, pnlen, f = expected_calls[i]
                 ml = model_largest[(d, sp)]
                 decodable = Q.decode_pn(ml, pn & ((1 << (8 * pnlen)) - 1), 8 * pnlen) == pn
-                if not decodable:
+                if f["i"] in damaged:
+                    # damaged on the wire: fails authentication, so it is not "successfully processed"
+                    decodable = False
+                    out.count("reach:first_packet_of_space_damaged")
+                    out.count("fault:packet_number_bit_flipped")
+                elif not decodable:
                     # reordering/loss moved this packet outside the window its sender encoded for: no receiver can
                     # decrypt it, and (RFC 9000 A.3: largest *successfully processed*) it must not move the reference
                     out.count("packet_outside_sender_window")
